@@ -40,6 +40,11 @@ DRIVERS = {
 }
 
 FORM_CT = "application/x-www-form-urlencoded"
+# Content-Type values a receiver reads as a form / does not read as a form (ASCII only, see notes)
+FORM_VARIANTS = [FORM_CT + "; charset=utf-8", FORM_CT + ";charset=UTF-8", FORM_CT + "; charset", FORM_CT + "; a=1; a=2",
+                 " Application/X-WWW-Form-URLencoded ;x", FORM_CT + ",x", FORM_CT + ";", "\t" + FORM_CT.upper() + "\r\n"]
+NOT_FORM = ["application/x-www-form-encoded", "text/plain", FORM_CT + "x", "text/plain; " + FORM_CT, "x" + FORM_CT,
+            "application/x-www-form-urlencoded/", "", "multipart/form-data; boundary=x"]
 B36 = "0123456789abcdefghijklmnopqrstuvwxyz"
 HEXD = "0123456789abcdef"
 PRINT = "".join(chr(c) for c in range(0x21, 0x7f))
@@ -223,7 +228,7 @@ def _gen_request(rng, remote, home, placements=None):
                 placements.remove("basic")
     same = _token(rng, remote, home)
     toks = {p: (same if rng.random() < 0.4 else _token(rng, remote, home)) for p in placements}
-    method = rng.choice(["POST", "POST", "PUT", "PATCH"]) if "form" in placements and rng.random() < 0.9 \
+    method = rng.choice(["POST", "POST", "PUT", "PATCH"]) if "form" in placements and rng.random() < 0.8 \
         else rng.choice(["GET", "GET", "POST", "PUT", "PATCH", "DELETE", "HEAD"])
     # Authorization
     A = "-"
@@ -260,8 +265,7 @@ def _gen_request(rng, remote, home, placements=None):
         if rng.random() < 0.05:
             b.insert(rng.randint(0, len(b)), None)
         r = rng.random()
-        T = hx(FORM_CT if r < 0.85 else rng.choice([FORM_CT + "; charset=utf-8", FORM_CT + ";charset=UTF-8",
-                                                      "application/x-www-form-encoded", "text/plain"]))
+        T = hx(FORM_CT if r < 0.7 else rng.choice(FORM_VARIANTS + NOT_FORM))
         B = "f." + items_field(b)
     else:
         r = rng.random()
@@ -273,7 +277,7 @@ def _gen_request(rng, remote, home, placements=None):
             if rng.random() < 0.05:
                 b.insert(rng.randint(0, len(b)), None)
             B = "f." + items_field(b)
-            T = hx(rng.choice([FORM_CT, FORM_CT, FORM_CT, FORM_CT + "; charset=utf-8", "application/x-www-form-encoded"]))
+            T = hx(rng.choice([FORM_CT, FORM_CT, FORM_CT] + FORM_VARIANTS + NOT_FORM))
         else:
             B = "o." + hxc(rng.choice(['{"a":1}', "x", '{"filters":[]}']))
             T = rng.choice(["-", hx("application/json"), hx("application/octet-stream")])
@@ -371,6 +375,20 @@ def _items_match(model_field, raw_in, raw_out):
     return got == want
 
 
+def _strip_token_cookie(values):
+    """Cookie header values after removing every cookie named arvados_api_token (simple cookies only)"""
+    kept = []
+    for v in values:
+        for part in v.split(";"):
+            part = part.strip()
+            if not part:
+                continue
+            name, _, val = part.partition("=")
+            if name != "arvados_api_token":
+                kept.append(name + "=" + val)
+    return ["; ".join(kept)] if kept else []
+
+
 def compare(case, impl, model):
     op = case.split(" ", 1)[0]
     if model is None:
@@ -395,12 +413,15 @@ def compare(case, impl, model):
             return False
         if not _items_match(mv["B"], unhx(iv["Bi"]), unhx(iv["B"])):
             return False
-        # the model says the Cookie header is carried over unchanged
         want_cookie = []
         if f[5].startswith("t."):
             want_cookie = ["arvados_api_token=" + base64.urlsafe_b64encode(unhx(f[5][2:]).encode("latin-1")).decode()]
         elif f[5].startswith("r."):
             want_cookie = [unhx(f[5][2:])]
+        if mv.get("K") == "stripped":
+            want_cookie = _strip_token_cookie(want_cookie)
+        elif mv.get("K") != "same":
+            return False
         return unhxlist(iv.get("K", "-")) == want_cookie
     if op == "provhttp":
         if not model.startswith("ok "):
@@ -423,6 +444,11 @@ def compare(case, impl, model):
 # ----------------------------------------------------------------------------- oracle (property text, implementation output only)
 
 RE_LEGACY = re.compile(r"\A[0-9a-z]{41,}\Z")
+
+
+def _is_form(ct):
+    """how a receiver decides that a body is a form: media type = text before the parameters"""
+    return re.split(r"[;,]", ct, maxsplit=1)[0].strip(" \t\n\r\v\f").lower() == FORM_CT
 
 
 def _classify(t):
@@ -581,7 +607,7 @@ def _placed_tokens(f):
     if K.startswith("t.") and unhx(K[2:]):
         out.append(("cookie", unhx(K[2:])))
     ct = unhx(T) if T != "-" else ""
-    if B.startswith("f.") and (ct == FORM_CT or ct.startswith(FORM_CT + ";")):
+    if B.startswith("f.") and _is_form(ct):
         # a form body: only its first api_token value is a credential (and only if non-empty),
         # but every api_token value in it is searched for by the secrecy rule
         first = True
@@ -612,8 +638,7 @@ def _oracle_legacy(case, impl):
     auths = unhxlist(iv["A"])
     problems = []
     # form-body tokens count only when the body is actually read as a form by the method
-    found = [p for p in placed if p[0] not in ("form", "form-extra") or
-             (p[0] == "form" and method in ("POST", "PUT", "PATCH"))]
+    found = [p for p in placed if p[0] != "form-extra"]
     if found:
         t = found[0][1]
         c = _classify(t)
@@ -646,12 +671,15 @@ def _oracle_legacy(case, impl):
                 s = None    # only the first token is resolved; others are simply dropped/kept
         if not s:
             continue
-        if s in unhx(iv["B"]) or s in urllib.parse.unquote_plus(unhx(iv["B"]), encoding="latin-1"):
-            problems.append(("body", "an unsalted user secret is in the forwarded body"))
+        # a body that is not declared as a form is payload, not a token placement
+        body_is_form = _is_form(unhx(f[6]) if f[6] != "-" else "")
+        head = dump.split("\n\n", 1)[0]
+        if body_is_form and (s in unhx(iv["B"]) or s in urllib.parse.unquote_plus(unhx(iv["B"]), encoding="latin-1")):
+            problems.append(("body", "an unsalted user secret is in the forwarded form body"))
         elif any(s in v for k in unhxlist(iv["K"]) for v in _views(k)):
             problems.append(("cookie", "an unsalted user secret is in the forwarded Cookie header"))
-        elif _leaks(s, dump):
-            problems.append(("dump", f"the unsalted secret of the {where} token occurs in the forwarded request"))
+        elif _leaks(s, head):
+            problems.append(("dump", f"the unsalted secret of the {where} token occurs in the forwarded request line or headers"))
     if not problems:
         return None
     seen = []
@@ -724,26 +752,9 @@ def oracle(case, impl):
 # ----------------------------------------------------------------------------- findings
 
 def finding_of(case, impl, why):
-    """Only the exact witness shapes of the recorded findings are mapped to their ids."""
-    if not why or not case.startswith("legacy ") or not impl.startswith("fwd"):
-        return None
-    f = case.split(" ")
-    kinds = set(m.group(1) for m in re.finditer(r"\[([a-z:]+)\]", why))
-    ids = set()
-    placed = _placed_tokens(f[3:8])
-    non_form = [p for p in placed if not p[0].startswith("form")]
-    in_form = [p for p in placed if p[0].startswith("form")]
-    ct = unhx(f[6]) if f[6] != "-" else ""
-    for k in kinds:
-        if k == "cookie" and f[5].startswith("t."):
-            ids.add("F19a")      # the arvados_api_token cookie is forwarded as it is
-        elif k == "body" and ct == FORM_CT and non_form and in_form:
-            ids.add("F19b")      # a token elsewhere in the request disables the body branch
-        elif k in ("body", "header") and ct.startswith(FORM_CT + ";") and in_form and (k == "body" or not non_form):
-            ids.add("F19c")      # content type with parameters: body neither searched nor stripped
-        else:
-            return None
-    return sorted(ids)[0] if ids else None
+    """No finding of C19 is in status 'known' (F7, F19a, F19b, F19c are fixed in /repo), so no
+    failure is ever mapped to a known-finding id."""
+    return None
 
 
 # ----------------------------------------------------------------------------- evidence helpers
